@@ -355,6 +355,9 @@ func (d *qBounceDelivery) Abort(ctx context.Context) error {
 
 var qT *testing.T // the enclosing test (synctest needs a *testing.T)
 
+// qStartVia, when set, opens the delivery that submits a message (instead of Queue.Start).
+var qStartVia func(q *Queue, ctx context.Context, meta *module.MsgMetadata, from string) (module.Delivery, error)
+
 const qHorizon = 96 * time.Hour
 
 func qNewQueue(dir string, sc *qScenario, tgt module.DeliveryTarget, bounce module.DeliveryTarget) *Queue {
@@ -452,7 +455,13 @@ func qRun(sc qScenario, observe func(dir string, h *qHistory)) *qHistory {
 					meta.OriginalRcpts[k] = v
 				}
 			}
-			d, err := q.Start(ctx, meta, m.From)
+			var d module.Delivery
+			var err error
+			if qStartVia != nil {
+				d, err = qStartVia(q, ctx, meta, m.From) // e.g. through a message pipeline in front of the queue
+			} else {
+				d, err = q.Start(ctx, meta, m.From)
+			}
 			if err != nil {
 				h.ev(qEvent{Msg: m.ID, Op: "accept-error", Err: err.Error()})
 				continue
